@@ -114,14 +114,31 @@ def run_tensor(case, env):
     return out
 
 
+class CaseTimeout(Exception):
+    pass
+
+
+def _alarm(signum, frame):
+    raise CaseTimeout()
+
+
 def main():
+    import signal
     payload = json.load(open(sys.argv[1]))
+    limit = int(payload.get("case_timeout", 40))
+    signal.signal(signal.SIGALRM, _alarm)
     res = []
     for case in payload["cases"]:
+        signal.alarm(limit)
         try:
             res.append(run_case(case))
+        except CaseTimeout:
+            # sympy can take minutes on a swollen expression: such a case is skipped and counted, never an alarm
+            res.append({"in": case.get("tree") or {"k": "num", "p": 0, "q": 1}, "out": {"err": "unsupported-node", "msg": "case time limit"}})
         except Exception:  # noqa
             res.append({"crash": traceback.format_exc()[-1500:]})
+        finally:
+            signal.alarm(0)
     json.dump({"results": res}, open(sys.argv[2], "w"))
 
 
